@@ -875,3 +875,42 @@ def one_refresh_query_per_due_record(ctx, P, pre):
                "the due records are walked in a loop of their own" if own else
                "only the first due record of the host is looked at (no loop over the result): the other address family is disarmed but never "
                "asked for, expires, and AddressesRemoved is reported for a live address")
+
+
+def goodbye_resets_ttl_and_created(ctx, P, pre):
+    """known answers are computed from `created` and `ttl` (half-life test, remaining TTL): reset_ttl copies both from the
+    incoming record on EVERY path, also for a goodbye (ttl 1) — otherwise a withdrawn record is listed as a known answer with
+    thousands of seconds left during its last second"""
+    from .c11 import _field_assigns
+    rt = P.one("DnsRecord::reset_ttl")
+    for fld in ("ttl", "created"):
+        ws = _field_assigns(P, rt, "DnsRecord", fld)
+        blocks = [w[0] for w in ws]
+        ok = bool(blocks) and not any(rt.term(r)["k"] == "return" for r in rt.reachable(0, removed_blocks=blocks))
+        ctx.ob(pre + ".goodbye-resets-ttl-and-created", "%s|%s" % (rt.name, fld), ok, rt.loc(blocks[0]) if blocks else rt.loc(),
+               "reset_ttl writes `%s` on every path" % fld if ok else
+               "reset_ttl can return without writing `%s` (e.g. for a goodbye): the known-answer list and the remaining TTL are computed from the "
+               "values of the announcement that was withdrawn" % fld)
+
+
+def new_address_reported_only_when_stored(ctx, P, pre):
+    """add_interface tells its second half (announce, one query per open browse) that an address is new; check_ip_changes
+    calls it again for every address it does not find in my_intfs.  So `new` is reported only on paths that store the address
+    (MyIntf.addrs.insert or a new MyIntf): otherwise the address is found new at every IP check and every check sends a query"""
+    f = P.one("Zeroconf::add_interface")
+    stores = [b for b, t in f.calls() if "HashSet" in cname(t) and method(cname(t)) == "insert" and recv_mentions(P, f, b, t, "addrs", "MyIntf")]
+    stores += [b for b, i, s in aggregates(f, "service_info::MyIntf")]
+    trues = [(b, i, s["p"]["l"]) for b, i, s in f.assigns() if not s["p"]["proj"] and s["r"]["k"] == "use" and s["r"]["a"].get("k") == "const" and
+             s["r"]["a"].get("ty") == "bool" and s["r"]["a"].get("val") in (1, True) and f.locals[s["p"]["l"]].get("name")]
+    ctx.require(bool(stores), pre + ".anchor", f.name + "|store", f.loc(), "%d store(s), %d flag assignment(s) (no flag: the function returns early instead)" % (len(stores), len(trues)))
+    bad = []
+    for (b, i, l) in trues:
+        if any(s_ == b or f.dominates(s_, b) for s_ in stores):
+            continue
+        if not any(f.term(r)["k"] == "return" for r in f.reachable(b, removed_blocks=stores)):
+            continue
+        bad.append(f.loc(b, i))
+    ctx.ob(pre + ".new-address-reported-only-when-stored", f.name, not bad, f.loc(),
+           "every `new address` report is accompanied by storing the address" if not bad else
+           "add_interface reports the address as new (%s) on a path that does not store it: every later IP check finds it new again and sends "
+           "another query for every open browse" % bad[:1])
